@@ -152,6 +152,25 @@ def json_tree_edits(quick):
                 if apply_edit(doc, kind, path, ids2 or ids, rng):
                     desc.append("%s %s" % (kind, "/".join(str(p) for p in path)))
             reqs.append({"json": json.dumps(doc), "ops": ["compute_lite"], "lite": True, "probe_json": probe, "name": fn, "edit": " ; ".join(desc)})
+        # two edits that belong together: a space takes another load profile, and a daily schedule gets one value more or
+        # fewer than 24 (profiles of different lengths meeting on the same day)
+        loads = [l.get("id") for l in base.get("loads", [])]
+        days = base.get("schedules", {}).get("day", [])
+        if len(loads) >= 2 and days and base.get("spaces"):
+            combos = [(si, di, how) for si in range(len(base["spaces"])) for di in range(len(days)) for how in ("longer", "shorter")]
+            if len(combos) > (400 if quick else 4000):
+                combos = rng.sample(combos, 400 if quick else 4000)
+            for si, di, how in combos:
+                doc = copy.deepcopy(base)
+                sp = doc["spaces"][si]
+                others = [x for x in loads if x != sp.get("loads")]
+                sp["loads"] = others[(si + di) % len(others)]
+                d = doc["schedules"]["day"][di]
+                if not d.get("values"):
+                    continue
+                d["values"] = d["values"] + [d["values"][-1]] if how == "longer" else d["values"][:23]
+                reqs.append({"json": json.dumps(doc), "ops": ["compute_lite"], "lite": True, "probe_json": probe, "name": fn,
+                             "edit": "loads of %s redirected ; day schedule %s has %d values" % (sp.get("name"), d.get("name"), len(d.get("values", [])))})
     return reqs
 
 
